@@ -521,6 +521,13 @@ class P:
                 if self.at(";"):
                     self.eat(";")
                 stmts.append(("assert", cond, v))
+            elif v == "while" and not self.at("let"):
+                self.eat("while")
+                if self.at("let"):
+                    raise Unsupported("while let")
+                cond = self.expr(nostruct=True)
+                body = self.block()
+                stmts.append(("while", cond, body))
             elif v == "__forin!":
                 self.next()
                 self.eat("(")
